@@ -10,12 +10,15 @@ import (
 // Chooser hands out the answers of one execution of a choice tree. Choice 0 is always the
 // plainest option; a non-zero answer is a "deviation" and is what the bound counts.
 type Chooser struct {
-	prefix []int
-	ns     []int // number of alternatives at each point reached
-	taken  []int
-	labels []string
-	strict bool // replay mode: the prefix must be consumed exactly
-	bad    string
+	// Thorough is true when the run is in the thorough tier (bodies may offer larger menus then; a
+	// replay sets it from the recorded case so that choice vectors keep their meaning).
+	Thorough bool
+	prefix   []int
+	ns       []int // number of alternatives at each point reached
+	taken    []int
+	labels   []string
+	strict   bool // replay mode: the prefix must be consumed exactly
+	bad      string
 }
 
 // Choose returns an int in [0,n). n must be >= 1.
@@ -63,12 +66,13 @@ type Tree struct {
 func (t *Tree) ScenName() string { return t.Name }
 
 type treeCase struct {
-	Choices []int    `json:"choices"`
-	Labels  []string `json:"labels,omitempty"`
+	Thorough bool     `json:"thorough,omitempty"`
+	Choices  []int    `json:"choices"`
+	Labels   []string `json:"labels,omitempty"`
 }
 
-func (t *Tree) exec(prefix []int, strict bool) (res Result, ch *Chooser) {
-	ch = &Chooser{prefix: prefix, strict: strict}
+func (t *Tree) exec(prefix []int, strict bool, thorough bool) (res Result, ch *Chooser) {
+	ch = &Chooser{prefix: prefix, strict: strict, Thorough: thorough}
 	defer func() {
 		if x := recover(); x != nil {
 			if x == errBadPrefix {
@@ -92,7 +96,7 @@ func (t *Tree) Replay(raw json.RawMessage) (Result, error) {
 	if err := json.Unmarshal(raw, &c); err != nil {
 		return Result{}, err
 	}
-	res, _ := t.exec(c.Choices, true)
+	res, _ := t.exec(c.Choices, true, c.Thorough)
 	return res, nil
 }
 
@@ -142,13 +146,13 @@ func (t *Tree) Run(r *Run) {
 				n := execs
 				mu.Unlock()
 
-				res, ch := t.exec(it.prefix, false)
+				res, ch := t.exec(it.prefix, false, r.Thorough())
 				res.Trans += int64(len(ch.taken))
 				if it.devs > 0 {
 					res.Nontrivial++
 				}
 				st.merge(&res)
-				full := treeCase{Choices: append([]int(nil), ch.taken...), Labels: ch.labels}
+				full := treeCase{Thorough: r.Thorough(), Choices: append([]int(nil), ch.taken...), Labels: ch.labels}
 				for _, f := range res.Fail {
 					r.recordFail(t.Name, f, full)
 				}
